@@ -1,1 +1,76 @@
-import HdModel.Spec.Pool
+import HdModel.Props.C05
+/-! # C02 — a non-multiplexed connection serves one request at a time
+
+Step-level theorems about the pool model, valid in **every** state: a non-shareable connection is
+delivered to at most one waiter, is handed back to the pool only once it is ready again, and a
+connection that is busy (or taken over by an upgrade, i.e. never ready again) is never popped. -/
+namespace Hd.Pool
+
+/-- **C02 (one receiver).** Pushing a non-shareable connection changes at most one channel. -/
+theorem C02_single_delivery (s : State) (t : Token) (c : ConnId) (l : List ReqId)
+    (hns : canShare s c = false) (r r' : ReqId)
+    (h1 : (pushLoop s t c l).1.chan r ≠ s.chan r) (h2 : (pushLoop s t c l).1.chan r' ≠ s.chan r') : r = r' := by
+  induction l with
+  | nil => simp [pushLoop] at h1
+  | cons x xs ih =>
+    simp only [pushLoop] at h1 h2
+    split at h1
+    · rename_i hxe
+      simp only [hxe, hns, Bool.false_eq_true, ↓reduceIte] at h1 h2
+      have e1 : r = x := by
+        by_cases e : r = x
+        · exact e
+        · simp [upd, e] at h1
+      have e2 : r' = x := by
+        by_cases e : r' = x
+        · exact e
+        · simp [upd, e] at h2
+      rw [e1, e2]
+    · rename_i hne
+      have hx : (s.chan x = Chan.empty → False) := hne
+      cases hcx : s.chan x with
+      | empty => exact absurd hcx hx
+      | _ => simp only [hcx] at h2; exact ih h1 h2
+
+/-- **C02 (delivered or kept, never both).** A non-shareable connection that was delivered to a
+    waiter is not also put into the idle list. -/
+theorem C02_delivered_not_idle (s : State) (t : Token) (c : ConnId)
+    (hd : (pushLoop (clearMarker s t c) t c ((clearMarker s t c).waiting t)).2 = true) :
+    (push s t c).idle = (pushLoop (clearMarker s t c) t c ((clearMarker s t c).waiting t)).1.idle := by
+  unfold push
+  simp only []
+  generalize pushLoop (clearMarker s t c) t c ((clearMarker s t c).waiting t) = res at hd
+  obtain ⟨s1, d⟩ := res
+  simp only [] at hd ⊢
+  subst hd
+  simp
+
+/-- **C02 (hand-back only when ready again).** The `WhenReady` task returns a connection to the pool
+    only when it is open and no response is outstanding on it; while it is busy the task stays
+    parked, and a closed one is dropped. -/
+theorem C02_handback_only_when_ready (s : State) (i : Nat) (c : ConnId) (t : Token) (hp : Bool) (k : Conn)
+    (hk : s.conns c = some k) :
+    (k.busy = true ∧ k.isOpen = true → runWhenReady s i c t hp = s) ∧
+    (k.isOpen = false → (runWhenReady s i c t hp).idle = s.idle ∧ (runWhenReady s i c t hp).chan = s.chan) := by
+  unfold runWhenReady
+  simp only [hk]
+  constructor
+  · intro ⟨hb, ho⟩; simp [hb, ho]
+  · intro ho; simp [ho, removeTask]
+
+/-- **C02 (a busy connection is never popped).** `pop` only returns connections that are open and
+    not busy – in particular not one that is in use, nor one whose response has not been consumed,
+    nor one taken over by an upgrade (which never reports ready again). -/
+theorem C02_pop_not_busy (s : State) (l : List (ConnId × Nat)) (c : ConnId) (k : Conn)
+    (h : (idlePop s l).1 = some c) (hk : s.conns c = some k) : k.busy = false ∧ k.isOpen = true := by
+  have := (C05_pop_spec s l c h).1
+  simp [isOpenC, hk] at this
+  exact ⟨this.2, this.1⟩
+
+/-- **C02 (use marks busy).** Handing a non-shareable connection to a request marks it busy, so it
+    is not ready (hence cannot be popped or handed back) until `connReady`. -/
+theorem C02_exec_marks_busy (s : State) (c : ConnId) (k : Conn) (hk : s.conns c = some k) :
+    isOpenC (setConn s c (fun k => { k with busy := true })) c = false := by
+  simp [isOpenC, setConn, hk]
+
+end Hd.Pool
